@@ -70,14 +70,14 @@ def run(ctx):
     S.model_check(ctx, 'file-4x1', sd.consts('file', MaxTxn=4, MaxRecs=1, AtomVals=('v1',), MaxClock=1), invariants=inv,
                   properties=props, timeout=900)
     big = dict(NOid=3, Metas=('m0',), MaxTxn=9, MaxRecs=3, MaxClock=2, MaxUndo=3)
-    num = 400 if q else 6000
+    num = 300 if q else 6000
     c = sd.consts('file', Cls='MCCls', **big)
     files = S.simulate(ctx, 'file', c, num=num, depth=80, seed=ctx.seed + 7, next_='NextUndo')
     res = S.replay_all(ctx, files, 'file', c)
     # undo before and after packs and reopen (directed scripts evaluated by TLC)
     import random
     from ..drivers import scripts as sc
-    scripts = undo_pack_scripts(random.Random(ctx.seed * 131 + 3), 150 if q else 3000)
+    scripts = undo_pack_scripts(random.Random(ctx.seed * 131 + 3), 80 if q else 3000)
     cs = sd.consts('file', Cls='MCCls', **dict(big, NOid=3, MaxTxn=14, MaxRecs=7, MaxClock=8, RefSets='FewRefs2'))
     behs = sc.evaluate(ctx, 'undo-pack', scripts, cs)
     res2 = S.replay_all(ctx, behs, 'file', cs, opts={'sparse': False}, tag='up')
